@@ -38,6 +38,13 @@ type c04Cell struct {
 	Retry    bool   `json:"retry"`             // first a complete attempt with a wrong code on the same connection, then the right code
 	Segment  int    `json:"segment,omitempty"` // every pairing request body arrives in two TCP segments cut here (negative: from the end)
 	RePair   bool   `json:"repair,omitempty"`  // afterwards the same identifier pairs again with a new key pair and verifies with it
+	// Before is something that happens before the conformant controller's exchange:
+	//   "abort-after-M1" / "abort-after-M3": another connection starts pair-setup, gets that far and goes away
+	//   "rejected-M5": on the SAME connection a complete exchange whose key-exchange message is sealed under a wrong key
+	//   "rejected-verify": (after pairing) on the verify connection a complete pair-verify with a foreign signature first
+	Before string `json:"before,omitempty"`
+	// Peer "link-local": the controller connects through the host's link-local IPv6 address (fe80::…%iface)
+	Peer string `json:"peer,omitempty"`
 }
 
 func c04ID(kind string) string {
@@ -142,13 +149,19 @@ var _ io.Reader = &detStream{}
 
 func c04Exec(c *fw.Ctx, cell c04Cell) {
 	c.Eval(1)
-	name := fmt.Sprintf("segment=%d repair=%v pin=%s id=%s key=%s eph=%s srp=%s restart=%v req=%d wrong=%v same=%v retry=%v", cell.Segment, cell.RePair, cell.Pin, cell.IDKind, cell.KeySeed, cell.EphSeed, cell.SRP, cell.Restart, cell.ReqSize, cell.WrongPin, cell.SameConn, cell.Retry)
+	name := fmt.Sprintf("before=%s peer=%s ", cell.Before, cell.Peer) + fmt.Sprintf("segment=%d repair=%v pin=%s id=%s key=%s eph=%s srp=%s restart=%v req=%d wrong=%v same=%v retry=%v", cell.Segment, cell.RePair, cell.Pin, cell.IDKind, cell.KeySeed, cell.EphSeed, cell.SRP, cell.Restart, cell.ReqSize, cell.WrongPin, cell.SameConn, cell.Retry)
 	sigCell := fmt.Sprintf("id=%s,srp=%s,restart=%v,req=%d,wrong=%v,same=%v,retry=%v", cell.IDKind, cell.SRP, cell.Restart, cell.ReqSize, cell.WrongPin, cell.SameConn, cell.Retry)
 	if cell.Segment != 0 {
 		sigCell += fmt.Sprintf(",segment=%d", cell.Segment)
 	}
 	if cell.RePair {
 		sigCell += ",repair"
+	}
+	if cell.Before != "" {
+		sigCell += ",before=" + cell.Before
+	}
+	if cell.Peer != "" {
+		sigCell += ",peer=" + cell.Peer
 	}
 	fail := func(step, desc string) {
 		c.Report(step+"/"+sigCell, name+": "+desc, cell)
@@ -162,10 +175,56 @@ func c04Exec(c *fw.Ctx, cell c04Cell) {
 	defer func() { b.Close() }()
 	id := refctl.NewIdentity(c04ID(cell.IDKind), cell.KeySeed)
 	before := strings.Join(world.EntityFiles(b.Dir), ";")
-	k, err := b.Dial()
+	dial := func() (*refctl.Ctl, error) {
+		if cell.Peer != "link-local" {
+			return b.Dial()
+		}
+		_, port, _ := net.SplitHostPort(b.W.Addr)
+		k, err := refctl.Dial("[" + c04LinkLocal() + "]:" + port)
+		if err == nil {
+			b.conns = append(b.conns, k)
+		}
+		return k, err
+	}
+	if cell.Peer == "link-local" && c04LinkLocal() == "" {
+		c.Note("no link-local IPv6 address on this host: the link-local peer cell is not exercised")
+		c.Eval(-1)
+		return
+	}
+	if strings.HasPrefix(cell.Before, "abort-after-") {
+		// somebody else starts pairing and goes away in the middle
+		ka, err := dial()
+		if err != nil {
+			c.Infra(err.Error())
+			return
+		}
+		as := &refctl.Setup{}
+		if m, _, err := ka.Do("POST", "/pair-setup", refctl.CTPairing, refctl.SetupM1()); err == nil && as.ParseM2(m.Body) == nil && cell.Before == "abort-after-M3" {
+			if m3, err := as.M3(refctl.Seed32("abort-a"), b.Code); err == nil {
+				ka.Do("POST", "/pair-setup", refctl.CTPairing, m3)
+			}
+		}
+		ka.Close()
+		time.Sleep(20 * time.Millisecond)
+	}
+	k, err := dial()
 	if err != nil {
 		c.Infra(err.Error())
 		return
+	}
+	if cell.Before == "rejected-M5" {
+		// a complete exchange on this connection whose key-exchange message is sealed under a wrong key: error, then again
+		rs := &refctl.Setup{}
+		m, _, err := k.Do("POST", "/pair-setup", refctl.CTPairing, refctl.SetupM1())
+		if err == nil && rs.ParseM2(m.Body) == nil {
+			if m3, err := rs.M3(refctl.Seed32("rej-a"), b.Code); err == nil {
+				if m, _, err = k.Do("POST", "/pair-setup", refctl.CTPairing, m3); err == nil {
+					if ec, err := rs.ParseM4(m.Body); err == nil && ec == 0 {
+						k.Do("POST", "/pair-setup", refctl.CTPairing, refctl.M5Sealed(refctl.Seed32("wrong-key"), refctl.M5Sub(rs.SRP.K, id)))
+					}
+				}
+			}
+		}
 	}
 	k.SegmentBodyAt = cell.Segment
 	code := b.Code
@@ -317,11 +376,18 @@ func c04Exec(c *fw.Ctx, cell c04Cell) {
 	}
 	vk := k
 	if !cell.SameConn || cell.Restart {
-		if vk, err = b.Dial(); err != nil {
+		if vk, err = dial(); err != nil {
 			c.Infra(err.Error())
 			return
 		}
 		vk.SegmentBodyAt = cell.Segment
+	}
+	if cell.Before == "rejected-verify" {
+		// a complete pair-verify with a foreign signature on this connection first (answered with an error), then the genuine one
+		rv := refctl.NewVerify(refctl.Seed32("rej-v"))
+		if m, _, err := vk.Do("POST", "/pair-verify", refctl.CTPairing, refctl.VerifyM1(rv.EphPub)); err == nil && rv.ParseM2(m.Body, nil) == nil {
+			vk.Do("POST", "/pair-verify", refctl.CTPairing, refctl.VerifyM3Sealed(rv.EncKey, rv.M3Sub(id.ID, idX.Priv)))
+		}
 	}
 	_, vec, err := refctl.PairVerify(vk, id, c04EphSeed(cell.EphSeed), s.AccLTPK)
 	if err != nil || vec != 0 {
@@ -455,6 +521,12 @@ func c04Cells(thorough bool) []c04Cell {
 		add(func(x *c04Cell) { x.Segment = sg })
 	}
 	add(func(x *c04Cell) { x.Segment = 40; x.SameConn = true; x.IDKind = "124bytes" })
+	for _, bf := range []string{"abort-after-M1", "abort-after-M3", "rejected-M5", "rejected-verify"} {
+		add(func(x *c04Cell) { x.Before = bf })
+	}
+	add(func(x *c04Cell) { x.Before = "rejected-verify"; x.SameConn = true })
+	add(func(x *c04Cell) { x.Peer = "link-local" })
+	add(func(x *c04Cell) { x.Peer = "link-local"; x.SameConn = true; x.IDKind = "utf8" })
 	add(func(x *c04Cell) { x.RePair = true })
 	add(func(x *c04Cell) { x.RePair = true; x.SameConn = true; x.IDKind = "utf8" })
 	if thorough {
@@ -511,4 +583,24 @@ func init() {
 		Budget:      func(string) time.Duration { return 15 * time.Minute },
 		Assumptions: []string{"the quantifier over all codes/keys/identities is covered only through the branches visible in the code (lengths, leading zeros, fragment and frame boundaries); cryptographic values are otherwise opaque bytes to hc", "SRP values are hashed in minimal length (leading zeros stripped) in M1/M2/K, which is what the accessory's SRP library and Apple's ADK do"},
 	})
+}
+
+// c04LinkLocal returns a link-local IPv6 address of this host with its zone ("fe80::1%eth0"), or "".
+func c04LinkLocal() string {
+	ifs, err := net.Interfaces()
+	if err != nil {
+		return ""
+	}
+	for _, ifc := range ifs {
+		if ifc.Flags&net.FlagUp == 0 || ifc.Flags&net.FlagLoopback != 0 {
+			continue
+		}
+		addrs, _ := ifc.Addrs()
+		for _, a := range addrs {
+			if ipn, ok := a.(*net.IPNet); ok && ipn.IP.To4() == nil && ipn.IP.IsLinkLocalUnicast() {
+				return ipn.IP.String() + "%" + ifc.Name
+			}
+		}
+	}
+	return ""
 }
